@@ -351,6 +351,92 @@ def run_behind_release(res, dur, nr):
         w.dispose()
 
 
+def run_duplicate_in_window(res, dur, gap, nr):
+    """A second copy of a CON request (same endpoint, same message ID) arrives `gap` seconds after the first - before or after the
+    acknowledgement - and the handler answers when it answers: the request is acknowledged exactly once under its message ID, by
+    the piggy-backed response if that is ready within EMPTY_ACK_DELAY, else by an empty ACK and a separate response with a fresh ID
+    (repetitions of an acknowledgement already sent, byte for byte, are C04's subject and are not counted)."""
+    w, node, req, tok, reqmid, calls = build()
+    try:
+        t0 = w.loop.time()
+        cell = (rc.CON, 1, False, "peer", "uni", dur, nr)
+        data, mid, token = incoming(cell, tok, 1)
+        w.inject(PEER, NODE, data, local_ip=LOCALS["uni"])
+        w.loop.advance_to(t0 + gap)
+        w.inject(PEER, NODE, data, local_ip=LOCALS["uni"])
+        w.loop.advance_to(t0 + 1.5)
+        case = {"duplicate_in_window": [dur, gap, nr]}
+        res.evaluations += 1
+        res.traces += 1
+        mine = [rc.decode(d.data, check_formats=False) for d in w.sent if d.src == NODE and d.dst == PEER]
+        acks = []
+        for m in mine:
+            if m[0] == rc.ACK and m[2] == mid and m not in acks:
+                acks.append(m)
+        seps = {m[2] for m in mine if m[0] == rc.CON and m[1] >= 64 and m[3] == token}
+        d = DUR[dur]
+        sup = suppressed(nr, 69)
+        if d < EAD:
+            want_acks, want_sep = [0 if sup else 69], 0
+        else:
+            want_acks, want_sep = [0], (0 if sup else 1)
+        got_acks = [m[1] for m in acks]
+        if got_acks != want_acks or len(seps) != want_sep or calls.count(d) != 1:
+            res.violate(Violation("acknowledged-exactly-once", {"distinct ACKs under the request's ID (codes)": want_acks, "separate responses": want_sep, "handler runs": 1},
+                                  {"acks": got_acks, "separate": len(seps), "handler runs": calls.count(d)}, "messagemanager.py:_deduplicate_message", case,
+                                  trace=w.trace[-20:], key="dupwin/%s/%s" % (dur, "twice" if len(got_acks) > 1 else "other")))
+        for msg, e in w.loop_exceptions():
+            res.violate(Violation("loop-exception", "none", core.exc_desc(e) if e else msg, core.site_of(e) if e else "loop", case, key="loop"))
+        res.states.add(core.digest(("dupwin", dur, gap, nr, tuple(got_acks), len(seps))))
+        res.transitions += 2
+        res.outcomes.add(core.digest(("dupwin", tuple(got_acks), len(seps))))
+        res.signatures.add(core.digest(("dupwin", dur, gap, nr)))
+    finally:
+        w.dispose()
+
+
+def run_multicast_given_up(res, dst, late_type):
+    """A request to a multicast group that the application gives up before anything came back: a response that turns up on that
+    token afterwards (from a unicast address) answers nothing - Reset if confirmable, silence otherwise."""
+    from ..world import World as _W
+    w = _W()
+    try:
+        node = w.add_context("node", *NODE)
+        w.add_peer(Peer("peer", *PEER))
+        m = Message(code=GET, uri_path=["x"])
+        m.remote = node.remote((dst, 5683))
+        r = node.ctx.request(m, handle_blockwise=False)
+        w.loop.settle()
+        sent = [d for d in w.sent if d.src == NODE]
+        case = {"multicast_given_up": [dst, late_type]}
+        res.evaluations += 1
+        res.traces += 1
+        if len(sent) != 1:
+            res.violate(Violation("multicast-request-type", "one NON datagram", [repr(d) for d in sent], "messagemanager.py:send_message", case, key="mc-setup"))
+            return
+        token = sent[0].data[4:4 + (sent[0].data[0] & 15)]
+        r.response.cancel()
+        w.loop.settle()
+        w.loop.advance(1.0)
+        n0 = len(w.sent)
+        t = {"CON": rc.CON, "NON": rc.NON}[late_type]
+        w.inject(PEER, NODE, rc.encode((t, 69, 0x6a01, token, [], b"late")))
+        w.loop.advance(0.5)
+        replies = [rc.decode(d.data, check_formats=False) for d in w.sent[n0:] if d.src == NODE]
+        want = [(rc.RST, 0, 0x6a01, b"", [], b"")] if t == rc.CON else []
+        if replies != want:
+            res.violate(Violation("reaction-table", [rc.describe(x) for x in want], [rc.describe(x) for x in replies], "tokenmanager.py:request", case,
+                                  key="mc-late-" + late_type))
+        for msg, e in w.loop_exceptions():
+            res.violate(Violation("loop-exception", "none", core.exc_desc(e) if e else msg, core.site_of(e) if e else "loop", case, key="loop"))
+        res.states.add(core.digest(("mcgu", dst, late_type, len(replies))))
+        res.transitions += 2
+        res.outcomes.add(core.digest(("mcgu", len(replies))))
+        res.signatures.add(core.digest(("mcgu", dst, late_type)))
+    finally:
+        w.dispose()
+
+
 def run_mid_crossing(res, cell, reaction):
     """Message IDs of the two directions are separate spaces: the node's separate CON response went out under its own ID M and
     was acknowledged (or reset) by the peer under M; a message of the peer that happens to carry M as *its* ID is a new message
@@ -604,6 +690,13 @@ def job(arg):
         for dur in ("slow", "D+e"):
             for nr in (None, 2, 8, 26):
                 run_behind_release(res, dur, nr)
+        for dur in DUR:
+            for gap in (0.0, 0.01, 0.05, 0.09, 0.11, 0.3, 0.6):
+                for nr in (None, 2):
+                    run_duplicate_in_window(res, dur, gap, nr)
+        for dst in ("ff02::fd", "::ffff:224.0.1.187"):
+            for late_type in ("CON", "NON"):
+                run_multicast_given_up(res, dst, late_type)
         res.sample({"behind_unacked_separate_response": list(items[0])})
     return res
 
@@ -675,7 +768,11 @@ def replay(case, scenario, seed):
     if "same_token" in case:
         run_same_token(res, *case["same_token"])
         return [v for v, n in res.violations.values()]
-    if "behind_release" in case:
+    if "duplicate_in_window" in case:
+        run_duplicate_in_window(res, *case["duplicate_in_window"])
+    elif "multicast_given_up" in case:
+        run_multicast_given_up(res, *case["multicast_given_up"])
+    elif "behind_release" in case:
         run_behind_release(res, *case["behind_release"])
     elif "mid_crossing" in case:
         run_mid_crossing(res, tuple(case["mid_crossing"]), case["reaction"])
